@@ -28,6 +28,32 @@ def sh(cmd, cwd=None, timeout=3600):
     return p.returncode, p.stdout.decode("utf-8", "replace")
 
 
+def check_in_place(out, props, patch, sid):
+    # checks against /repo itself
+    rc, o = sh("git -C %s status --porcelain" % REPO)
+    assert o.strip() == "", "/repo is not clean: " + o
+    rc, o = sh("git -C %s apply %s" % (REPO, patch))
+    try:
+        for pid in props:
+            t0 = time.time()
+            rc, o = sh("./check %s --tier quick" % pid, cwd=VERIF, timeout=3600)
+            viol = [l for l in o.split("\n") if l.startswith("VIOLATION")]
+            out["checks"][pid] = {"exit": rc, "violation_lines": viol, "tail": o[-700:], "wall_s": round(time.time() - t0, 1),
+                                  "detected": rc == 1 and bool(viol), "with_failing_input": bool(viol) and "no-failing-input-found" not in viol[0]}
+            for l in viol:
+                rel = l.split("replay=")[1].split()[0]
+                src = os.path.join(VERIF, rel)
+                if os.path.exists(src):
+                    d = os.path.join(VERIF, "seeded", sid)
+                    os.makedirs(d, exist_ok=True)
+                    shutil.copy(src, os.path.join(d, "replay_%s.json" % pid))
+                    os.remove(src)
+    finally:
+        sh("git -C %s checkout -- ." % REPO)
+    rc, o = sh("git -C %s status --porcelain" % REPO)
+    assert o.strip() == "", "/repo not restored: " + o
+
+
 def main():
     mdir, sid = sys.argv[1], sys.argv[2]
     meta = json.load(open(os.path.join(mdir, "meta.json")))
@@ -69,29 +95,36 @@ def main():
         sh("git -C %s worktree remove --force %s" % (REPO, wt))
     confirmed = all(out["confirmation"].get(k) for k in ("patch_applies", "suite_passes_with_patch", "demo_fails_with_patch", "demo_passes_without_patch"))
     out["confirmed"] = confirmed
-    # checks against /repo itself
-    rc, o = sh("git -C %s status --porcelain" % REPO)
-    assert o.strip() == "", "/repo is not clean: " + o
-    rc, o = sh("git -C %s apply %s" % (REPO, patch))
-    try:
-        for pid in props:
-            t0 = time.time()
-            rc, o = sh("./check %s --tier quick" % pid, cwd=VERIF, timeout=3600)
-            viol = [l for l in o.split("\n") if l.startswith("VIOLATION")]
-            out["checks"][pid] = {"exit": rc, "violation_lines": viol, "tail": o[-700:], "wall_s": round(time.time() - t0, 1),
-                                  "detected": rc == 1 and bool(viol), "with_failing_input": bool(viol) and "no-failing-input-found" not in viol[0]}
-            for l in viol:
-                rel = l.split("replay=")[1].split()[0]
-                src = os.path.join(VERIF, rel)
-                if os.path.exists(src):
-                    d = os.path.join(VERIF, "seeded", sid)
-                    os.makedirs(d, exist_ok=True)
-                    shutil.copy(src, os.path.join(d, "replay_%s.json" % pid))
-                    os.remove(src)
-    finally:
-        sh("git -C %s checkout -- ." % REPO)
-    rc, o = sh("git -C %s status --porcelain" % REPO)
-    assert o.strip() == "", "/repo not restored: " + o
+    if os.environ.get("SEED_ISOLATED"):
+        # Same thing without touching the shared /repo (other work may be reading it): a private mount
+        # namespace in which a patched copy of the repository is bind-mounted over /repo, and a private
+        # copy of /verif (with its build caches) to run the checks in.
+        rcopy = "/tmp/seedrepo_%s_%d" % (sid, os.getpid())
+        vcopy = os.environ.get("SEED_VCOPY", "/tmp/vseed")
+        sh("rm -rf %s && mkdir -p %s && rsync -a --exclude target %s/ %s/" % (rcopy, rcopy, REPO, rcopy))
+        rc, o = sh("git apply %s" % patch, cwd=rcopy)
+        assert rc == 0, o
+        sh("mkdir -p %s && rsync -a --delete --exclude replays %s/ %s/ && mkdir -p %s/replays" % (vcopy, VERIF, vcopy, vcopy))
+        try:
+            for pid in props:
+                t0 = time.time()
+                rc, o = sh("unshare --mount sh -c 'mount --bind %s /repo && cd %s && ./check %s --tier quick'" % (rcopy, vcopy, pid), timeout=3600)
+                viol = [l for l in o.split("\n") if l.startswith("VIOLATION")]
+                out["checks"][pid] = {"exit": rc, "violation_lines": viol, "tail": o[-700:], "wall_s": round(time.time() - t0, 1),
+                                      "detected": rc == 1 and bool(viol), "with_failing_input": bool(viol) and "no-failing-input-found" not in viol[0],
+                                      "how": "patched copy of /repo bind-mounted over /repo in a private mount namespace; checks run in a copy of /verif"}
+                for l in viol:
+                    rel = l.split("replay=")[1].split()[0]
+                    src = os.path.join(vcopy, rel)
+                    if os.path.exists(src):
+                        d = os.path.join(VERIF, "seeded", sid)
+                        os.makedirs(d, exist_ok=True)
+                        shutil.copy(src, os.path.join(d, "replay_%s.json" % pid))
+                        os.remove(src)
+        finally:
+            sh("rm -rf %s" % rcopy)
+    else:
+        check_in_place(out, props, patch, sid)
     d = os.path.join(VERIF, "seeded", sid)
     os.makedirs(d, exist_ok=True)
     for f in os.listdir(mdir):
@@ -105,7 +138,8 @@ def main():
     print(json.dumps({"seed": sid, "confirmed": confirmed, "confirmation": {k: v for k, v in out["confirmation"].items() if isinstance(v, bool)},
                       "checks": {p: {k: c[k] for k in ("exit", "detected", "with_failing_input", "wall_s")} for p, c in out["checks"].items()}}, indent=1))
     # restore evidence files of the checks (they were rewritten by a run on a mutated tree)
-    sh("git checkout -- evidence", cwd=VERIF)
+    if not os.environ.get("SEED_ISOLATED"):
+        sh("git checkout -- evidence", cwd=VERIF)
 
 
 if __name__ == "__main__":
